@@ -233,13 +233,14 @@ func Segments(t *rapid.T, src string) string {
 		// no comma list at that level: swap two adjacent keyword-introduced clauses instead
 		var kw []int
 		for i, p := range ps {
-			if i > 0 && len(p.Raw) > 1 && p.Raw[0] >= 'A' && p.Raw[0] <= 'Z' && strings.ToUpper(p.Raw) == p.Raw {
+			if i > 0 && clauseWords[strings.ToUpper(p.Raw)] {
 				kw = append(kw, i)
 			}
 		}
-		if len(kw) < 3 {
+		if len(kw) < 2 {
 			return src
 		}
+		kw = append(kw, len(ps)) // the last clause runs to the end
 		k := rapid.IntRange(0, len(kw)-3).Draw(t, "seg.kw")
 		a, b, c := kw[k], kw[k+1], kw[k+2]
 		out := append([]Piece{}, ps[:a]...)
@@ -281,6 +282,17 @@ func Segments(t *rapid.T, src string) string {
 	out = append(out, ps[segs[len(segs)-1].to:]...)
 	return Join(out)
 }
+
+// clauseWords start a clause in some statement (any letter case).
+var clauseWords = func() map[string]bool {
+	m := map[string]bool{}
+	for _, w := range strings.Fields(`INSERT UPDATE DELETE SET ADD DROP ALTER WHERE GROUP ORDER HAVING LIMIT OFFSET FROM OPTIONS STORING INTERLEAVE PARTITION FOR ON USING
+WITH THEN DEFAULT HIDDEN STORED PRIMARY REFERENCES ENFORCED CHECK CONSTRAINT FOREIGN ROW SQL AS SKIP RESTART START BIT_REVERSED_POSITIVE NO INPUT OUTPUT REMOTE
+NODE EDGE LABEL PROPERTIES KEY SOURCE DESTINATION TABLESAMPLE JOIN UNION INTERSECT EXCEPT SELECT RETURN ASSERT_ROWS_MODIFIED IF CASCADE TO GRANT REVOKE WINDOW QUALIFY`) {
+		m[w] = true
+	}
+	return m
+}()
 
 // Truncate cuts src at a drawn byte offset.
 func Truncate(t *rapid.T, src string) string {
